@@ -23,12 +23,12 @@ CHECKS = {
             "DESIGN.md 5/C03"),
     "C04": ("exploration",
             "proptest over generated systems x depths x entry points; oracle: strict independent SMT-LIB scope/sort checker + evaluation of the script under concrete executions",
-            "The script emitted by UnrollSmtEncoding (through a recording SolverContext and the real serializer) is checked strictly (declared/defined exactly once before use, well-sorted) and evaluated under concrete executions of the reference simulator: every per-step symbol must have the value of its signal. Sampling, not proof.",
+            "The script emitted by UnrollSmtEncoding (through a recording SolverContext and the real serializer) is checked strictly (declared/defined exactly once before use, well-sorted) and evaluated under concrete executions of the reference simulator: every per-step symbol (states, inputs, constraints, bad states; outputs when the encoder is created with include_outputs) must have the value of its signal; contexts are padded so that expression ids span several hundred ids. A slice of the scripts (1 in 300) is also sent to the real z3 and cvc5 with the execution pinned: both must accept it and return the reference values (a disagreement is harness trouble, exit 2). Sampling, not proof.",
             "Trusts smtref and refsim.",
             "DESIGN.md 5/C04"),
     "C05": ("exploration",
             "proptest over choice-tape expressions/commands; oracle: independent strict SMT-LIB sort checker + evaluator vs reference evaluator",
-            "Every generated command text from serialize_cmd is lexed, sort-checked strictly (1-bit symbols declared Bool) and evaluated by an independent SMT-LIB 2.6 front end; identifiers must read back verbatim and values must equal the reference evaluator's under all/sampled assignments. Sampling, not proof.",
+            "Every generated command text from serialize_cmd is lexed, sort-checked strictly (1-bit symbols declared Bool) and evaluated by an independent SMT-LIB 2.6 front end; identifiers (generated from a broad alphabet) must read back verbatim and values must equal the reference evaluator's under all/sampled assignments (samples draw on the literals of the case). A slice (1 in 250) is also sent to the real z3 and cvc5, which must accept the text and return the reference value (a disagreement is harness trouble, exit 2). Sampling, not proof.",
             "Trusts smtref (own SMT-LIB reader/checker/evaluator, unit-tested) and refeval.",
             "DESIGN.md 5/C05"),
     "C06": ("exploration",
@@ -48,12 +48,12 @@ CHECKS = {
             "DESIGN.md 5/C08"),
     "C09": ("exploration",
             "proptest round-trip writer->reader with positional equivalence judged by the reference evaluator; all shipped files",
-            "Generated systems and every shipped btor2 file are serialized and parsed back into the same Context; counts, types and every function are compared positionally (identical reference or reference-evaluator-equal); names of parsed systems must survive another cycle. Sampling, not proof.",
+            "Generated systems and every shipped btor2 file are serialized and parsed back into the same Context; counts, types and every function are compared positionally (identical reference or reference-evaluator-equal); explicit names of parsed systems (distinct among inputs+states and among outputs; an output may carry the name of the symbol it labels) must survive another cycle, also for systems with dozens of labels. Sampling, not proof.",
             "Trusts refeval; systems the writer documents as unsupported (constant array outside init, undeclared symbol) are skipped and counted.",
             "DESIGN.md 5/C09"),
     "C10": ("exploration",
             "proptest over generated bit-vector systems x generalisation x profiles x unsat-core modes x model seeds; oracle: full explicit-state reachability fixpoint",
-            "patronus::mc::pdr runs against the reference solver, which answers with randomised models and alternative valid unsat cores (z3's, all assumptions, deletion-minimal, core plus random extras); Success iff the reachability fixpoint has no bad state, Fail iff it has one; Unknown/error/panic fail; witnesses are replayed. A case exceeding 180 s is inconclusive (exit 2). Sampling, not proof.",
+            "patronus::mc::pdr runs against the reference solver, which answers with randomised models and alternative valid unsat cores (z3's, all assumptions, deletion-minimal, core plus random extras); Success iff the reachability fixpoint has no bad state, Fail iff it has one; Unknown/error/panic fail; witnesses are replayed. Systems include gate states that only a constraint reads. A case exceeding 900 s is inconclusive (exit 2). Sampling, not proof.",
             "Trusts refsim and z3 behind the shim; the shim's alternative cores are valid by construction (supersets of a core / minimal subsets re-checked).",
             "DESIGN.md 5/C10"),
     "C11": ("exploration",
@@ -88,7 +88,7 @@ CHECKS = {
             "DESIGN.md 5/C17"),
     "C18": ("exploration",
             "mutation-based proptest over valid btor2 texts (generated and shipped) with panic capture and deep well-typedness check of accepted systems",
-            "1-3 line/token-level edits of valid btor2 texts and grammar-generated ill-sorted variants are fed to parse_str under catch_unwind; allowed outcomes are rejection, a system passing a deep type/scope check, or a panic naming a documented unsupported operator. Sampling, not proof. Widths beyond 2^20 bits are excluded (resource use, not decidable here).",
+            "1-3 line/token/character-level edits of valid btor2 texts (plus probe outputs on arbitrary node lines) and grammar-generated ill-sorted variants (operator, init and next lines) are fed to parse_str under catch_unwind; allowed outcomes are rejection, a system passing a deep type/scope check in which every output has the type that the referenced line declares in the text, or a panic naming a documented unsupported operator. Sampling, not proof. Widths beyond 2^20 bits are excluded (resource use, not decidable here).",
             "Trusts the deep checker (own typing rules cross-checked with type_check/get_type).",
             "DESIGN.md 5/C18"),
     "C12": ("exploration",
@@ -103,7 +103,7 @@ CHECKS = {
             "DESIGN.md 5/C13"),
     "C14": ("exploration",
             "proptest round-trip writer->reader, independent value printer->reader, single-edit malformed inputs",
-            "Round-trips every SmtCommand variant and generated terms through serialize_cmd and parse_expr/parse_command/read_command (equivalence judged by the reference evaluator), reads model values printed in solver styles by an independent printer, and feeds single-edit malformed texts (must be Err or keep the original meaning; panics fail). Sampling, not proof.",
+            "Round-trips every SmtCommand variant and generated terms through serialize_cmd and parse_expr/parse_command/read_command (equivalence judged by the reference evaluator), reads model values printed in solver styles by an independent printer, reads whole scripts back from one stream with read_command (nothing lost, merged or reordered), and feeds single-edit malformed texts (must be Err or keep the original meaning; panics fail). Symbol names are generated from a broad alphabet. Sampling, not proof.",
             "Trusts smtref's printer/reader (self-checked on every case) and refeval. The end-to-end get_value path against the reference solver is part of the solver-backed checks.",
             "DESIGN.md 5/C14"),
 }
